@@ -53,9 +53,9 @@ DAEMON_ASSUME = ("end-to-end stage: the built binary is fed through two real FIF
 READER_ASSUME = ("end-to-end stage, reader-level input classes (harness/daemon/reader.go, every fourth scenario): records of 4 KiB / 8 KiB / 64 KiB / 128 KiB "
                  "(at, just around and well beyond the size) on both pipes - unrecognised sshd lines whose body is, behind every 128-byte boundary of the record, a complete "
                  "accepted-login message for another session's sshd PID (nothing must come of them), certificate logins with key ids of that length (the whole key id is the "
-                 "event's userID), EXECVE records of 4-9 KiB and some of 20-70 KiB (rendered as the library renders the text written: C14's e2e:render); bursts of hundreds of "
+                 "event's userID), EXECVE records of 4-9 KiB and some of 20-70 KiB, PATH records whose executable path is 4-9 KiB long (rendered as the library renders the text written: C14's e2e:render); bursts of hundreds of "
                  "records in one write(2), beyond one page and beyond the pipe's capacity; a writer of the sshd pipe that closes in the middle of an accepted-login record: the "
-                 "daemon may end (end-of-stream is a failure by design; the oracles then apply to what was written before) or go on with the next writer, whose records - the complete "
+                 "daemon may end (end-of-stream is a failure by design: observed as 'no reader on the FIFO any more' or the process' exit; the oracles then apply to what was written before) or - still holding the pipe open 5 s later - go on with the next writer, whose records - the complete "
                  "login of another process, then the first process' own - must then yield exactly their events and the first process' audit session exactly its identity. Stated, not "
                  "proved: bytes a writer left unterminated when it closed are not a record and not part of the next writer's first record. C06 / C11 on this stage: the six message forms "
                  "of the daemon generator (accepted password / publickey / certificate, failed password, invalid user, maximum attempts), expected fields by construction; a UserLogin that "
